@@ -787,7 +787,20 @@ class BuiltinMixin(object):
 
     def bi_open(self, st, args, kw):
         st.log.append(("open", args[0], args[1] if len(args) > 1 else "r"))
-        yield st, st.alloc(Obj(ClassV("File"), {"path": args[0]}))
+        f = Obj(ClassV("File"), {"path": args[0]})
+
+        def hook(eng, st_, ref, attr):
+            yield st_, BuiltinV("file." + attr, self_val=ref)
+
+        f.attr_hook = hook
+        yield st, st.alloc(f)
+
+    def bi_file_write(self, st, args, kw):
+        if not self.is_str(args[1]):
+            yield self.raise_(st, "TypeError", "write() argument must be str")
+            return
+        st.log.append(("write", args[0]))
+        yield st, None
 
     def bi_six_raise_from(self, st, args, kw):
         yield st, Raised(args[0])
